@@ -102,7 +102,10 @@ def gen_inputs(interp, shape, rng, n_samples, max_len=10, int_range=14, exhausti
         for _ in range(n_samples):
             yield shape.gen(rng)
         return
-    S = _decls(interp, shape)
+    try:
+        S = _decls(interp, shape)
+    except sym.Infeasible:
+        return          # the shape's inputs cannot be constructed on this tree (e.g. a Dtype the library now rejects)
     names = list(S.decls.items())
     if names and all(d[0] == 'int' for _, d in names):
         # integer-only shapes: sweep the power-of-two boundaries (codeword lengths, range limits, float precision limits)
